@@ -888,3 +888,43 @@ Proof.
   split; [vm_compute; reflexivity|].
   eexists. split; [vm_compute; reflexivity|]. vm_compute. reflexivity.
 Qed.
+
+(* the two theorems under ONE boolean hypothesis on the input (C11Spec.ref_sync_hyps lz f trs k d: all tracks consistent,
+   track k is the first video track, points into the file, lists sample 1 in stss, segment starts are found, the guard
+   nonzero_dur_syncs, every planned segment of it below 2 GiB; lz: one chunk-offset box).  This is the form the W
+   correspondence EVALUATES on the files the built segmenter was run on: where it is true, the files the tool wrote for
+   the reference track must each start with a sync sample (evidence: notes.correspondence.sync_theorem_applies). *)
+From V.c11 Require Import C11SyncBoolProofs.
+Theorem C11_segmenter_segments_start_sync_applies : forall (f : pfile) (trs : list itrack) k d,
+  ref_sync_hyps false f trs k d = true ->
+  exists t syncTs sps ivs,
+    nth_error trs k = Some t /\ get_segment_starts (map itrack_of trs) d = Ok (syncTs, sps) /\
+    get_segment_intervals syncTs sps (itrack_of t) = Ok ivs /\
+    forall opt T pos0 (tx : C05Model.trex), tx_track tx = T -> pos0 < 4611686018427387904 ->
+    exists fes outs, seg_track opt f (snd t) T ivs = Ok fes /\
+                     read_all (read_back tx pos0 []) fes = Ok outs /\
+                     map Some (concat outs) = expansion f (snd t) /\
+                     Forall starts_sync outs.
+Proof. exact ref_sync_bool. Qed.
+Print Assumptions C11_segmenter_segments_start_sync_applies.
+
+Theorem C11_segmenter_lazy_segments_start_sync_applies : forall (f : pfile) (trs : list itrack) k d,
+  ref_sync_hyps true f trs k d = true ->
+  exists t syncTs sps ivs,
+    nth_error trs k = Some t /\ get_segment_starts (map itrack_of trs) d = Ok (syncTs, sps) /\
+    get_segment_intervals syncTs sps (itrack_of t) = Ok ivs /\
+    forall opt T pos0 (tx : C05Model.trex), tx_track tx = T -> pos0 < 4611686018427387904 ->
+    exists outs res, seg_track_lazy opt f (snd t) T ivs = Ok outs /\
+                     read_all (fun p => read_back tx pos0 (snd p) (fst p)) outs = Ok res /\
+                     map Some (concat res) = expansion f (snd t) /\
+                     Forall starts_sync res.
+Proof. exact ref_sync_bool_lazy. Qed.
+Print Assumptions C11_segmenter_lazy_segments_start_sync_applies.
+
+(* satisfiable (audio first, the video track is track 1), and false for a track that is not the reference *)
+Example C11_ref_sync_hyps_example :
+  ref_sync_hyps false ex_e2e_file [(false, 48000, ex_e2e_audio_tb); (true, 1000, ex_e2e_tb)] 1 30 = true /\
+  ref_sync_hyps true (mkPfile (pf_bytes ex_e2e_file) 8 322 true)
+                [(false, 48000, ex_e2e_audio_tb); (true, 1000, ex_e2e_tb)] 1 30 = true /\
+  ref_sync_hyps false ex_e2e_file [(false, 48000, ex_e2e_audio_tb); (true, 1000, ex_e2e_tb)] 0 30 = false.
+Proof. vm_compute. repeat split. Qed.
